@@ -381,6 +381,7 @@ Definition wit1 : list (tid * event) := [
  (2, EState 10 SCompleted);
  (2, EProcEnded 10 SCompleted);
  (200, ENewInst 12 2);
+ (200, EState 12 SPending);
  (200, ERegAdd 12 2);
  (200, ESpawn 12 2);
  (200, EApiReturn true);
@@ -476,7 +477,7 @@ Proof.
   destruct e; try discriminate Hex; cbn in H.
   - left. unfold step_reg in H. break_step H. subst s'. reflexivity.
   - right. break_step H. subst s'. exists i. split_andb. unfold has in *. destruct (get th (thinst s)); [discriminate|]. auto.
-  - left. unfold step_state in H. break_step H; subst s'; unfold set_pc, end_finish; autorewrite with sup;
+  - left. unfold step_state in H. break_step H; subst s'; unfold set_pc, end_finish, set_stage; cbn [thinst RecordSet.set]; autorewrite with sup;
       repeat match goal with |- context[thinst (if ?b then _ else _)] => destruct b end; autorewrite with sup; reflexivity.
   - left. unfold step_own, own_inst in H. break_step H; subst s'; autorewrite with sup; reflexivity.
   - left. unfold step_own, own_inst in H. break_step H; subst s'; unfold set_pc; autorewrite with sup; reflexivity.
